@@ -32,7 +32,16 @@ def bounds(tier):
 def the_tree():
     return {'a': F(1), 'bb': F(4), 'ccc': F(7), 'dddd': F(10), 'e5': F(250), 'h1': F(5), 'h2': {'t': 'f', 'link': 'h1'},
             'h3': {'t': 'f', 'link': 'h1'}, 'k1': F(12), 'k2': {'t': 'f', 'link': 'k1'},
-            'AaBb': F(data='alpha only, 11'), 'bAAb': F(data='beta here'), 'ABab': F(data='alpha and beta together'), 'none': F(data='neither')}
+            'AaBb': F(data='alpha only, 11'), 'bAAb': F(data='beta here'), 'ABab': F(data='alpha and beta together'), 'none': F(data='neither'),
+            'hdr': F(data='Size Name Path 10 hdr\n')}
+
+
+# text-valued and literal expressions whose spelling resembles another column's: each one's value in company
+# (every ordered pair) must be its value alone; a literal's value is its text
+COMPANY = ["'Size'", 'size', "'Name'", 'name', "'size'", "'Path'", 'path', "'IsDir'", 'is_dir', "'Modified'", "'1'", '1',
+           "'Size + 1'", 'size + 1', "concat('Size', 'x')", "concat(size, 'x')", "contains('Size')", "contains('Name')",
+           "contains(name)", "upper('Name')", 'upper(name)', "length('Size')", 'length(size)', "'LENGTH(Name)'", 'length(name)',
+           "'Hardlinks'", 'hardlinks', "lower('Size')", "coalesce('Name', 'x')", "concat_ws('-', 'Size', size)"]
 
 
 def shapes(k):
@@ -315,6 +324,10 @@ def groups(tier, seed):
                 yield g
     if chunk:
         yield {'cases': list(chunk)}
+        chunk.clear()
+    for a in COMPANY:
+        yield {'cases': [{'kind': 'company', 'cols': [a, b]} for b in COMPANY if b != a] +
+                        [{'kind': 'company', 'cols': [COMPANY[(COMPANY.index(a) + 1 + j * 3) % len(COMPANY)] for j in range(4)] + [a]}]}
 
 
 def single(case):
@@ -353,6 +366,9 @@ def eval_group(env, group, tier):
         for c in group['cases']:
             kind = c['kind']
             r = {'case': c, 'layer': kind + (':k=%d' % c['k'] if 'k' in c else '')}
+            if kind == 'company':
+                outs.append(company(env, root, c, r, len(ents)))
+                continue
             try:
                 if kind == 'value':
                     exp = {e['name']: evaluate(c['e'], e) for e in ents}
@@ -423,6 +439,40 @@ def eval_group(env, group, tier):
     finally:
         env.rmtree(root)
     return outs
+
+
+_ALONE = {}
+
+
+def company(env, root, c, r, n):
+    r['nt'] = True
+    r['trans'] = len(c['cols'])
+    alone = {}
+    for e in c['cols']:
+        o = env.run(['name, %s into list' % e], cwd=root)
+        rows = o.rows(2)
+        if o.timeout or o.rc != 0 or o.err or rows is None or len(rows) != n:
+            r.update(status='viol', cls='company-status', detail=dict(o.brief(), query=e), sig=('err',))
+            return r
+        alone[e] = dict(rows)
+        if e.startswith("'") and e.endswith("'") and any(v != e[1:-1] for v in alone[e].values()):
+            r.update(status='viol', cls='literal-column-value', sig=('lit',),
+                     detail={'query': 'name, %s into list' % e, 'got': sorted(set(alone[e].values()))[:3], 'expected': e[1:-1]})
+            return r
+    q = 'name, %s into list' % ', '.join(c['cols'])
+    o = env.run([q], cwd=root)
+    rows = o.rows(1 + len(c['cols']))
+    if o.timeout or o.rc != 0 or o.err or rows is None or len(rows) != n:
+        r.update(status='viol', cls='company-status', detail=dict(o.brief(), query=q), sig=('err',))
+        return r
+    for row in rows:
+        for i, e in enumerate(c['cols']):
+            if row[1 + i] != alone[e].get(row[0]):
+                r.update(status='viol', cls='independence-text', sig=('indep-text',),
+                         detail={'query': q, 'row': row[0], 'column': e, 'got': row[1 + i], 'alone': alone[e].get(row[0])})
+                return r
+    r.update(status='ok', sig=tuple(rows[0][1:]))
+    return r
 
 
 def feature(e, text):
